@@ -66,6 +66,15 @@ def eq_vals(types, a, b, st=None):
     if kb == 'iface' and ka != 'iface':
         a = box(types, a, st)
         ka = 'iface'
+    if ka == 'ptr' and (a.lv is None or b.lv is None):
+        la, lb = a.loc, b.loc
+        if a.lv is None and b.lv is None and la is not None and lb is not None:
+            if la.fam != lb.fam or la.tk != lb.tk or la.static_path() != lb.static_path():
+                return z3.BoolVal(False)
+            cs = [la.ref == lb.ref] + [x == y for x, y in zip(la.indices(), lb.indices())]
+            return z3.And(cs)
+        # interior pointer against a plain pointer value: undetermined in this memory model
+        return z3.Bool(fresh_name('ptreq_unknown'))
     if ka in ('bool', 'int', 'ptr', 'map', 'chan', 'func', 'unsafeptr', 'float'):
         return a.term == b.term
     if ka == 'string':
@@ -193,6 +202,8 @@ def unbox(types, iv, t, st=None):
 
 def key_term(types, v, st=None):
     """canonical Int key of a value used as a map key"""
+    if v.t == '$key':
+        return v.lv[()]
     k = types.kind(v.t)
     if k in ('int', 'ptr', 'chan', 'func', 'map', 'unsafeptr'):
         return v.term
